@@ -28,8 +28,8 @@ def _model_dict(m):
     return out
 
 
-def check(hyps, goal, timeout_s=10, want_model=True, use_cvc5=True):
-    """returns dict(verdict, backend, time_s, model, reason)"""
+def check(hyps, goal, timeout_s=10, want_model=True, use_cvc5=True, second_opinion=False):
+    """returns dict(verdict, backend, time_s, model, reason[, second])"""
     t0 = time.time()
     s = z3.Solver()
     s.set("timeout", int(timeout_s * 1000))
@@ -38,7 +38,11 @@ def check(hyps, goal, timeout_s=10, want_model=True, use_cvc5=True):
     r = s.check()
     dt = time.time() - t0
     if r == z3.unsat:
-        return {"verdict": DISCHARGED, "backend": "z3", "time_s": dt, "model": None, "reason": "unsat"}
+        out = {"verdict": DISCHARGED, "backend": "z3", "time_s": dt, "model": None, "reason": "unsat"}
+        if second_opinion and os.path.exists("/usr/bin/cvc5"):
+            t1 = time.time(); out["second"] = _cvc5(s.to_smt2(), 3); out["second_time_s"] = time.time() - t1      # 'unsat' confirms, 'sat' is a solver disagreement, anything else: no opinion
+            out["time_s"] = time.time() - t0
+        return out
     if r == z3.sat:
         m = s.model()
         return {"verdict": REFUTED, "backend": "z3", "time_s": dt, "model": _model_dict(m) if want_model else None, "reason": "sat", "z3model": m}
